@@ -47,13 +47,15 @@ def invalid_cond(P, n):
     return SymBool(pipeline.validity_regions(c)[1])
 
 
-def body(ctx, conv, shape, bounds, as_coords, nan_cells=None, mesh_opts=None, descending=False, extent=True, bounds_first=False, coord_dtype=None, bounds_coords=False):
+def body(ctx, conv, shape, bounds, as_coords, nan_cells=None, mesh_opts=None, descending=False, extent=True, bounds_first=False, coord_dtype=None, bounds_coords=False, explicit=False):
     snap_holder = [coord_dtype]
     pipeline.builders.BOUNDS_AS_COORDS = bounds_coords
+    pipeline.EXPLICIT_NAMES = explicit
     try:
         return _body(ctx, conv, shape, bounds, as_coords, nan_cells, mesh_opts, descending, extent, bounds_first, snap_holder)
     finally:
         pipeline.builders.BOUNDS_AS_COORDS = False
+        pipeline.EXPLICIT_NAMES = False
 
 
 def _body(ctx, conv, shape, bounds, as_coords, nan_cells, mesh_opts, descending, extent, bounds_first, snap_holder):
@@ -238,6 +240,11 @@ def cases(tier):
                 # beyond nlsat within the time budget: validity is decided on stored bounds / node grids only
                 yield Case(base + ':validity', body, dict(kw, extent=False), patches=PM['sandwich'], max_paths=20000, split=32, solver=SOLVER)
             yield Case(base + ':extent', body, dict(kw, extent=True), patches=PM['all'], max_paths=20000, split=32)
+    # coordinate variables named by the caller
+    for conv, shape, bounds in (('cf1d', (2, 3), 'none'), ('cf1d', (3, 2), 'stored'), ('cf2d', (2, 3), 'stored'), ('cf2d', (1, 3), 'none')):
+        kw = dict(conv=conv, shape=shape, bounds=bounds, as_coords=(bounds == 'none'), nan_cells=() if conv == 'cf1d' else None, explicit=True)
+        yield Case(f'{conv}:{shape[0]}x{shape[1]}:{bounds}:explicit-names:extent', body, dict(kw, extent=True),
+                   patches=PM['rect' if conv == 'cf1d' else 'all'], max_paths=20000, split=32)
     meshes = ['tq', 'tri'] if q else ['tq', 'tri', 'tqp', 'fan']
     for mesh in meshes:
         for mo in (dict(), dict(start_index=1, fill='attr'), dict(transposed=True, coords_as_coords=False),
